@@ -10,6 +10,8 @@ ASSUME \A t \in 1..N : TLCSet(t, 0)
 TraceMaxCalls == 3
 AnyTrees == {<<"V">>}          \* not used for enumeration: TraceInit binds args
 AnyHdr == {"none", "own", "own_ct", "shared"}
+NoDev == {}
+Bools == {TRUE, FALSE}
 
 VARIABLES tid, l
 tvars == <<vars, tid, l>>
@@ -20,8 +22,10 @@ NC == Len(Traces[tid][1].calls)
 
 TraceInit ==
   /\ tid \in 1..N /\ l = 2
-  /\ args = [c \in Calls |-> IF c <= NC THEN [vars |-> Traces[tid][1].calls[c].tree, hdr |-> Traces[tid][1].calls[c].hdr]
-                              ELSE [vars |-> <<"V", <<"absent">>, <<"absent">>>>, hdr |-> "none"]]
+  /\ args = [c \in Calls |-> IF c <= NC THEN [vars |-> Traces[tid][1].calls[c].tree, hdr |-> Traces[tid][1].calls[c].hdr,
+                                               reuse |-> Traces[tid][1].calls[c].reuse]
+                              ELSE [vars |-> <<"V", <<"absent">>, <<"absent">>>>, hdr |-> "none", reuse |-> FALSE]]
+  /\ callerVars = [c \in Calls |-> args[c].vars]
   /\ pc = [c \in Calls |-> IF c <= NC THEN "start" ELSE "done"] /\ local = [c \in Calls |-> NoReq] /\ wire = [c \in Calls |-> NoReq]
   /\ sharedHdr = "clean" /\ outcome = [c \in Calls |-> 0]
 
@@ -32,7 +36,9 @@ T_Wire ==
   /\ Ev.c \in Calls /\ Send(Ev.c)
   /\ wire'[Ev.c] = ObsWire(Ev.obs)
   /\ Ev.obs.query_ok /\ Ev.obs.method = "POST" /\ Ev.obs.body_keys = <<"operationName", "query", "variables">>
+\* the caller's variables object, abstracted right after the call returned, is what the spec says the caller sees
 T_Ret == /\ Has /\ Ev.e = "ret" /\ Take /\ Ev.c \in Calls /\ Return(Ev.c) /\ Ev.got = Ev.c
+         /\ Ev.cvars = callerVars[Obj(Ev.c)]
 T_Shared == /\ Has /\ Ev.e = "shared" /\ Take /\ Ev.clean /\ UNCHANGED vars
 
 TraceNext == T_Process \/ T_Wire \/ T_Ret \/ T_Shared
